@@ -56,6 +56,7 @@ struct Fibre {
 	void (*fn) (void *); void *arg;
 	void *tls_val[MAXKEYS];
 	uintptr_t fstack[MAXFSTACK]; int fdepth;
+	uintptr_t fself[MAXFSTACK];      /* a PC inside each entered function (parallel to fstack, which holds call sites) */
 	uintptr_t last_entered;
 	uintptr_t stack_lo, stack_hi, saved_sp, min_sp, op_sp_top;
 	int ignore_depth;
